@@ -11,7 +11,10 @@ PROP = {'engine': 'stack',
          "phase x extensions x TERM pattern x generation and a delta sweep. Oracle: timeout text (or, race/hook only, the runtime's response) "
          'exactly; not before T, not after T+2000+100 (+1500 slack); all processes dead before the answer; two following invocations succeed on '
          "processes started afterwards. Non-trivial: stall phase other than 'runtime before response', or a process ignoring TERM/SHUTDOWN, or "
-         'hook-ordered, or |delta| <= 5 ms.',
+         'hook-ordered, or |delta| <= 5 ms. Later additions: stall phases `rt.upload` / `e1.upload` (a party stalls in the middle of a request body) '
+         'and `rt.download` (the runtime stops reading while a 6 MiB event is on its way to it); hook `fastinvoke.success` (the runtime answers at '
+         'once, the report of that success is held back until the function timeout has expired and its reset is over: it must not become the outcome '
+         'of the next invocation); second-generation stalls among the fixed cases.',
  'assumptions': ['fake process supervisor (DESIGN 3.4)', 'upper time bound carries 1.5 s slack; lower bound exact'],
  'level_text': 'random search plus (thorough) enumeration of the stall-phase product against the real stack, with two of the expiry races ordered '
                'deterministically through pause points instead of sampled.',
